@@ -38,7 +38,7 @@ PROPS = {
             "address conflict: winner supersedes whatever the states": "theorem (full): conflict_winner_supersedes, conflict_loser_discarded",
             "view independent of order and multiplicity": "theorem (full) at the Members layer for every RNG draw: apply_is_join, order_irrelevant, multiplicity_irrelevant, monotone, equal_keys_mean_equal_records",
             "re-applying own full state changes nothing": "theorem (full) at the Members layer: reapply_own_state_is_noop",
-            "two-way exchange agrees on third-party addresses": "theorem (full) at the Members layer: exchange_agrees; the own-address normalisation of Foca::apply_many is covered by correspondence + search (implementation oracle), not by a theorem",
+            "two-way exchange agrees on third-party addresses": "theorem (full), at the Members layer: exchange_agrees; at the level of the instance: C01H.apply_many_is_join_at_third_parties (a successful Foca::apply_many — whatever the batch says about the instance itself or about other identities of its address, whatever the RNG draws — leaves at every other address exactly the join of what was known and what the batch says), C01H.exchange_agrees_on_third_parties, C01H.reapply_own_state_keeps_third_parties (Proofs/ViewInv.lean: VInv, pre/post rules TrOk for successful runs)",
         },
         RULE_HIST + "search: random multisets of updates over 5 addresses x 3 generations x boundary incarnations applied to fresh real instances in several permutations with duplications (views compared), self-reapply, two-instance exchange; distinct by multiset hash, non-trivial when the multiset has a conflict or a repeated address.",
         ["incarnations are u16 (hypothesis inc <= 65535 of the theorems; the Rust type guarantees it)",
@@ -64,7 +64,7 @@ PROPS = {
             "count followed by exactly that many members, read back by the receiver loop": "theorem (full for lawful codecs): section_reads_back",
             "Feed lists only active members other than the receiver": "theorem (full): feed_candidates; 'other than the sender' follows from own-address-never-active (C09/C19 theorems)",
             "custom items length-prefixed": "theorem: custom_item_framing",
-            "peer accepts without Decode/Malformed error": "theorem (byte level, any codec that reads back what it wrote, any handler): C07H.wellformed_datagram_is_read_back, broadcast_datagram_is_read_back, bare_datagram_is_read_back (handle_data on header ++ [count ++ members] ++ framed items passes size, header, trailing-byte and member-section stages with exactly these members and this tail, i.e. equals processParsed), C07H.custom_tail_is_delivered (the receive loop hands the handler exactly the items, in order, and can only fail with the handler's own error), section_parses_back; that every emitted datagram has this shape with wire-range fields is the sending-side theorems above plus search (a real peer handles every emitted datagram) and correspondence",
+            "peer accepts without Decode/Malformed error": "theorem (full, whole histories): C07H.peer_accepts_every_datagram (Props/C07S.lean) — in any history with wire-range inputs (C07H/WireInv: WireHistory, InputWire: what any u16-typed codec decodes; identities within the type's range), every datagram any call hands to the runtime, delivered to a peer with the same codec (reading back the members and headers it wrote), the same packet size (at most 65535), another address, and addressed to it, is never answered with DataTooBig, Decode or MalformedPacket: C07H.every_datagram_has_the_shape (header; or header ++ count ++ that many encoded wire-range members ++ length-prefixed non-empty items; or, Broadcast, header ++ items — and nothing else), C07H.shaped_datagram_is_read_back (handle_data on it is processParsed on exactly these members and items), C07H.processParsed_never_rejects. Layers: Proofs/WireInv.lean (everything held stays within the wire range; renew wraps at u16 like the identity type), Proofs/Shape.lean (sendMessage_shape: member section, custom tail, by the fill and Feed-loop lemmas), Proofs/ComposeE.lean (generic effect-aware composition with side conditions, generated from Compose.lean), Proofs/SentInv.lean (Sent = wire range ∧ items never empty ∧ every datagram emitted so far has the shape), Proofs/ErrKinds.lean (which errors the processing path can end with); byte-level read-back: C07H.wellformed_datagram_is_read_back, broadcast_datagram_is_read_back, bare_datagram_is_read_back, custom_tail_is_delivered, section_parses_back",
         },
         RULE_HIST + "search: every datagram of every generated history is parsed by an independent grammar parser (written against the doc comment of Header) and fed to a fresh real peer instance with the same codec and packet size; packet sizes swept from just-fits-a-header upwards, all three codecs.",
         ["Codec contract: decode(encode(x) ++ rest) = (x, rest) for u16-range values (proved for the three codecs in C20)"],
@@ -266,6 +266,7 @@ PROPS = {
             "every request kind has exactly one automatic answer, of strictly lower rank; non-request kinds have none; one datagram per answer": "theorem (full): replies_descend, reply_table, one_datagram_per_answer",
             "idle/defunct instances do not reply; inactive senders get at most one TurnUndead": "theorem (full): disconnected_instances_do_not_reply, inactive_sender_gets_at_most_turnundead",
             "two members that consider each other Down do not bounce TurnUndead": "theorem (full): turnundead_from_down_member_is_not_answered_when_defunct - false before the fix: commit for F3",
+            "every delivered datagram causes at most a bounded number of new datagrams": "theorem (full, any bytes, any state, any RNG draws): C18H.bounded_fanout_per_datagram — at most k*(u+1)+1 datagrams, k = num_indirect_probes, u = number of member updates the datagram carries (one reply/relay/TurnUndead notice, plus one gossip round per update about the instance itself that makes it refute or renew); C18H.bare_datagram_fanout (k+1 for a datagram without updates); Proofs/FanOut.lean (Adds k n: keeps k, adds at most n datagrams; composition with explicit bounds)",
             "global termination of the exchange among 2-3 instances in arbitrary mutual-knowledge states": "partial: the well-founded measure across instances (DESIGN.md Appendix B) is not formalised; explored by the simulator with timers held (cap 300 deliveries)",
         },
         "search: simulator with timers held: 2-3 real instances in random mutual-knowledge states (alive, suspect, down, newer/older identity; some left the cluster), all four renew policies, notify_down_members on/off, one initial datagram of each of the 11 kinds, deliveries until the network is empty; violation when more than 300 deliveries or more than a bounded fan-out per delivery. " + RULE_HIST,
